@@ -20,10 +20,28 @@ def main(cases, out, shard, nshards):
             c = json.loads(line)
             s = dec_sent(c['s'])
             subs = []
+            derived = {}
+
+            def note(x):
+                # the published attributes of a RESULT object and of its sub-sentences (objects that compare equal may
+                # still carry different cached attributes: keep every distinct reading)
+                stack = [x]
+                while stack:
+                    y = stack.pop()
+                    rec = {'s': enc_sent(y), 'constants': sorted(enc_param(p) for p in y.constants),
+                           'variables': sorted(enc_param(p) for p in y.variables),
+                           'quantifiers': [q.name for q in y.quantifiers], 'operators': [op.name for op in y.operators]}
+                    derived[json.dumps(rec, sort_keys=True)] = rec
+                    if type(y) is Quantified:
+                        stack.append(y.sentence)
+                    elif hasattr(y, 'operands'):
+                        stack.extend(y.operands)
             for new in PARAMS:
                 for old in PARAMS:
                     try:
-                        r = enc_sent(s.substitute(dec_param(new), dec_param(old)))
+                        rs = s.substitute(dec_param(new), dec_param(old))
+                        r = enc_sent(rs)
+                        note(rs)
                     except Exception as e:
                         r = ['!', type(e).__name__]
                     subs.append({'new': new, 'old': old, 'res': r})
@@ -32,13 +50,16 @@ def main(cases, out, shard, nshards):
                 for cc in PARAMS[:3]:
                     k = dec_param(cc)
                     try:
-                        r1 = enc_sent(k >> s)
-                        r2 = enc_sent(s.unquantify(k))
+                        i1, i2 = k >> s, s.unquantify(k)
+                        note(i1)
+                        note(i2)
+                        r1 = enc_sent(i1)
+                        r2 = enc_sent(i2)
                         r = r1 if r1 == r2 else ['!', 'rshift-differs-from-unquantify']
                     except Exception as e:
                         r = ['!', type(e).__name__]
                     unq.append({'c': cc, 'res': r})
-            c.update(subs=subs, unq=unq, negative=enc_sent(s.negative()),
+            c.update(subs=subs, unq=unq, derived=list(derived.values()), negative=enc_sent(s.negative()),
                      constants=[enc_param(p) for p in s.constants], variables=[enc_param(p) for p in s.variables],
                      predicates=[enc_pred(p) for p in s.predicates], atomics=[enc_sent(a) for a in s.atomics],
                      operators=[op.name for op in s.operators], quantifiers=[q.name for q in s.quantifiers],
